@@ -41,7 +41,7 @@ NoCtx == [active |-> FALSE, sid |-> 0, key |-> "", parent |-> AbsentObj, sel |->
           prevQuiet |-> FALSE, hookOK |-> FALSE, nonBenign |-> FALSE, hook429 |-> FALSE, childFault |-> FALSE,
           statusConflict |-> FALSE, parentGone |-> FALSE, claimFail |-> FALSE, revWrites |-> 0,
           hookReq |-> [children |-> <<>>], result |-> "", parentChanged |-> FALSE, parentReqsAfterHook |-> 0,
-          store0 |-> <<>>, hookSeq |-> <<>>, okEtags |-> {}, allOK |-> TRUE]
+          store0 |-> <<>>, hookSeq |-> <<>>, okEtags |-> {}, allOK |-> TRUE, statusConflicts |-> 0]
 
 E      == Trace[l]
 HasE   == l <= N
@@ -460,8 +460,10 @@ C11_Written ==
      /\ ~ctx[E.a].revFailed)
   => LET c == ctx[E.a]  live == Lookup(store, ParentKeyOf(c)) IN
      \/ ~live.live \/ live.uid # c.parent.uid
-     \/ c.statusConflict \/ c.parentGone
-     \/ \E i \in DOMAIN c.failedReqs : c.failedReqs[i][2] = c.parent.kind
+     \* a conflict on the status write is retried against a fresh read (client-go's default back-off: four attempts);
+     \* only when every attempt met a conflict is the write given up for this sync
+     \/ c.statusConflicts >= 4 \/ c.parentGone
+     \/ \E i \in DOMAIN c.failedReqs : c.failedReqs[i][2] = c.parent.kind /\ c.failedReqs[i][4] # 409
      \/ StatusEq(live.status, ExpStatus(c))
      \/ Report("C11", IF c.childFault THEN "C11_EvenIfChildrenFail" ELSE "C11_Written",
                <<"status", live.status, "expected", ExpStatus(c), "failed", c.failedReqs>>)
@@ -860,6 +862,7 @@ CtxAfterReq(c, e) ==
         !.childFault = @ \/ (childMut /\ ~Accepted(e) /\ c.nHooks > 0),
         !.claimFail = @ \/ (c.nHooks = 0 /\ ~Accepted(e) /\ e.code \notin {404}),
         !.statusConflict = @ \/ (parentPut /\ e.code = 409),
+        !.statusConflicts = IF parentPut /\ e.code = 409 /\ c.nHooks > 0 THEN @ + 1 ELSE @,
         !.parentGone = @ \/ (IsParentReq(e, c) /\ (e.code = 404 \/ (Accepted(e) /\ e.verb = "get" /\ e.got.uid # c.parent.uid))),
         !.needFreshGet = IF parentPut /\ e.verb = "updateStatus" /\ e.code = 409 THEN TRUE
                          ELSE IF isParentGet THEN FALSE ELSE @,
